@@ -7,7 +7,7 @@ From Coq Require Import Lia ZifyN ZifyNat ZifyBool List.
 From Muxide Require Import Model.Base Model.Codec Model.Boxes Model.F64 Model.Writer Model.Api Spec.Bmff Spec.Reader Spec.Layout Spec.Checks
   Spec.Headers Spec.HeaderChecks
   Proofs.BaseProofs Proofs.ApiProofs Proofs.SinkProofs Proofs.FinishProofs Proofs.TimingProofs Proofs.StructureProofs
-  Proofs.EndToEndProofs Proofs.FieldProofs Proofs.HeaderProofs.
+  Proofs.EndToEndProofs Proofs.FieldProofs Proofs.HeaderProofs Proofs.SyncProofs Proofs.SyncAv1Vp9Proofs.
 Import ListNotations.
 Open Scope N_scope.
 Ltac Zify.zify_post_hook ::= Z.div_mod_to_equations.
@@ -180,6 +180,33 @@ Proof.
   - destruct audio; lia.
 Qed.
 
+(** * Clause 7: the configuration record of the video sample entry (all four codecs) *)
+
+(* the sample entry built from the muxer's final state passes the strict configuration test against
+   the first accepted key frame; H.264/H.265 use the finish-time guard on parameter-set lengths *)
+Lemma video_entry_clause b m0 ops m rs s :
+  build b [] = inl m0 -> run m0 ops = (m, rs) -> In (RStats s) rs -> Forall op_payload_ok ops ->
+  match first_key_of (accepted b ops (map class_of rs)) with
+  | Some d => check_video_entry (cfg_codec b) (vt_width (m_video m0)) (vt_height (m_video m0)) (Some d)
+                (ventry_tree (m_video m0) (effective_config (m_writer m)))
+  | None => true end = true.
+Proof.
+  intros Hb HR HIn Hok.
+  destruct (build_initial _ _ Hb) as (_ & _ & _ & D0 & _).
+  destruct (finished_gen_v ops m0 m rs s (Inv_reachable b m0 [] Hb) D0 HR HIn)
+    as (md & fs & bufs & _ & _ & Hw & Hh).
+  pose proof (finished_params_fit b m0 ops m rs s Hb HR HIn) as Hfit.
+  unfold first_key_of.
+  destruct (h_v (accepted b ops (map class_of rs))) as [|f tl] eqn:EHV; [reflexivity|].
+  destruct (final_config_stored b m0 ops m rs f tl Hb HR Hok EHV) as (c & Ec & Est).
+  unfold effective_config. rewrite Est. rewrite Est in Hfit.
+  destruct (cfg_codec b) eqn:Ecodec.
+  - apply video_entry_ok_fit; auto.
+  - apply video_entry_ok_fit; auto.
+  - apply av1_entry_ok; assumption.
+  - apply vp9_entry_ok; assumption.
+Qed.
+
 (** * The theorem *)
 
 Lemma sizes_clause b ops rs m v voffs vspc c md :
@@ -216,6 +243,7 @@ Proof.
   destruct (finished_gen_v ops m0 m rs s (Inv_reachable b m0 [] Hb) D0 HR HIn)
     as (md & fs & bufs & Hplan & Hsink & Hw & Hh).
   pose proof (build_video_dims b m0 Hb) as Hdims.
+  pose proof (video_entry_clause b m0 ops m rs s Hb HR HIn Hok) as C7.
   set (v := m_video m0) in *.
   destruct (fin_sinv _ _ _ _ F) as [[Sv Sa] SA].
   destruct (plan_file_shape _ _ _ _ _ Sv Sa SA Hplan)
@@ -260,6 +288,7 @@ Proof.
              (eq_trans (f_equal sumN DV) eq_refl)).
   change (tr_entry (vtrack v vt (effective_config w) md)) with (ventry_tree v (effective_config w)).
   rewrite (visual_clause v (effective_config w) Hw Hh).
+  rewrite C7.
   unfold aud_of. rewrite EA.
   destruct (cfg_audio b) as [a|]; [|reflexivity].
   destruct Haud as [Hr Hc].
@@ -274,6 +303,73 @@ Proof.
   rewrite DA. reflexivity.
 Qed.
 Print Assumptions finished_file_fields_are_exact.
+
+(** * Clause 7 alone, for every finished file and every codec (no duration / audio hypotheses) *)
+
+(* the tracks read back from a finished file, with the video description made explicit *)
+Lemma finished_file_tracks_m0 b m0 ops m rs s :
+  build b [] = inl m0 -> run m0 ops = (m, rs) -> In (RStats s) rs -> Forall op_payload_ok ops ->
+  len (sink_of m) < 4294967296 ->
+  exists md voffs vspc aoffs top,
+    read_tracks (sink_of m) =
+      Some (top, tracks_of (m_video m0) (from_samples (vsamples (m_writer m)) voffs vspc (w_vlast_delta (m_writer m)))
+                   (aud_of (m_writer m) aoffs) (effective_config (m_writer m)) md).
+Proof.
+  intros Hb HR HIn Hok Hlen.
+  pose proof (final_state b m0 ops m rs s Hb HR HIn Hok) as F.
+  destruct (build_initial _ _ Hb) as (_ & _ & _ & D0 & _).
+  destruct (finished_gen_v ops m0 m rs s (Inv_reachable b m0 [] Hb) D0 HR HIn)
+    as (md & fs & bufs & Hplan & Hsink & _ & _).
+  destruct (fin_sinv _ _ _ _ F) as [[Sv Sa] SA].
+  destruct (plan_file_shape _ _ _ _ _ Sv Sa SA Hplan)
+    as (voffs & vspc & aoffs & data & start & top & Efile & TV & TA & Hshape).
+  cbv zeta in Efile, TV, TA, Hshape.
+  exists md, voffs, vspc, aoffs, top.
+  rewrite Hsink in *. rewrite Efile in *.
+  apply read_tracks_top; [|exact Hlen|exact TV|exact TA].
+  destruct Hshape as [(-> & _)|(P & _)]; [left; reflexivity|eapply shape_top_shape; exact P].
+Qed.
+
+Theorem parameter_set_clause_holds : forall b m0 ops m rs s,
+  build b [] = inl m0 -> run m0 ops = (m, rs) -> In (RStats s) rs ->
+  Forall op_payload_ok ops -> len (sink_of m) < 4294967296 ->
+  exists top trs vt,
+    read_tracks (sink_of m) = Some (top, trs) /\ track_of HV trs = Some vt /\
+    (let '(w, hh) := cfg_dims b in
+     match first_key_of (accepted b ops (map class_of rs)) with
+     | Some d => check_video_entry (cfg_codec b) w hh (Some d) (tr_entry vt)
+     | None => true end) = true.
+Proof.
+  intros b m0 ops m rs s Hb HR HIn Hok Hlen.
+  destruct (finished_file_tracks_m0 b m0 ops m rs s Hb HR HIn Hok Hlen)
+    as (md & voffs & vspc & aoffs & top & Hread).
+  eexists _, _, _. split; [exact Hread|]. split; [apply track_of_video|].
+  rewrite (build_video_dims b m0 Hb).
+  exact (video_entry_clause b m0 ops m rs s Hb HR HIn Hok).
+Qed.
+Print Assumptions parameter_set_clause_holds.
+
+(* consequently clause 7 of [failed_C16_mux] is never reported on a finished file, whatever the
+   durations and the audio configuration are (the wrap classes only concern clauses 4, 5 and 8) *)
+Lemma in_clause k id ok : In k (clause id ok) -> k = id /\ ok = false.
+Proof. unfold clause. destruct ok; [intros []|intros [<-|[]]; split; reflexivity]. Qed.
+
+Theorem parameter_set_clause_never_fails : forall b m0 ops m rs s,
+  build b [] = inl m0 -> run m0 ops = (m, rs) -> In (RStats s) rs ->
+  Forall op_payload_ok ops -> len (sink_of m) < 4294967296 ->
+  ~ In 7 (failed_C16_mux b ops (map class_of rs) (sink_of m)).
+Proof.
+  intros b m0 ops m rs s Hb HR HIn Hok Hlen H7.
+  destruct (parameter_set_clause_holds b m0 ops m rs s Hb HR HIn Hok Hlen)
+    as (top & trs & vt & Hread & Htr & C7).
+  unfold failed_C16_mux in H7. rewrite Hread in H7.
+  destruct (negb _); [destruct H7|].
+  destruct (cfg_dims b) as [w hh]. rewrite Htr in H7.
+  repeat (apply in_app_or in H7; destruct H7 as [H7|H7]);
+    apply in_clause in H7; destruct H7 as [E1 E2]; try discriminate E1.
+  rewrite C7 in E2. discriminate E2.
+Qed.
+Print Assumptions parameter_set_clause_never_fails.
 
 (** * The recorded finding KF-C16-1, end to end *)
 Definition wit_b : builder :=
